@@ -41,13 +41,11 @@ CONFIG = dict(
     assumptions=["hook results are tuples/lists/FrameIterators (a hostile Sequence whose __reversed__/__len__ raises is out of scope)",
                  "warnings are not turned into errors; injected exceptions derive from Exception (BaseException such as KeyboardInterrupt propagates by design)",
                  "unwrap tables are rank-ordered (acyclic) apart from the linear self-loop"],
-    unproved_legs=["C05_prefix_kept is proved as: frames already yielded and errors already recorded are never dropped, reordered or altered by "
-                   "anything that happens later (all tables, all faults, all guards); the two-run form (faulty and fault-free runs agree on every frame "
-                   "yielded before the first fired fault) is checked at run time only (direct oracle on every synthetic case, per-level oracle in the real-scenario leg)",
-                   "which Stack of the tree holds an error is fixed by the model (nested runs start with an empty error list) and compared by the "
-                   "correspondence; C05_errors_exact states tree-wide exactness, C05_errors_in_order the per-Stack firing order, "
-                   "C05_errors_exact_any_state the same for every nested run",
-                   "error shape (alone if one, ExceptionGroup of >= 2 otherwise) is a runtime oracle on every case: the model keeps a list per Stack",
+    unproved_legs=["the two-run prefix theorems (C05_prefix_two_run, C05_prefix_vs_fault_free) are stated on runT, the model's run with a yield-tick stamp "
+                   "per frame; C05_instrumented_is_run proves that forgetting the stamps gives M_Frames.run (the function the case files evaluate); "
+                   "the runtime direct oracle on every synthetic case and the per-level oracle of the real-scenario leg check the same statement on the implementation",
+                   "C05_error_shape is proved for the projection error_of / errs_of (list of saved errors <-> None | single | group) defined next to the model, "
+                   "which keeps a list per Stack; that extract_child applies exactly this projection is checked by the runtime shape oracle on every case",
                    "real-scenario leg is a runtime oracle, not a model comparison (DESIGN's record/replay abstraction was replaced by a direct oracle); "
                    "small scope in thorough = every 41st table of the exhaustive 3-object x 2-frame space, each with all single faults and all pairs"],
     notes=("candidate finding (not in known_findings.json, recorded under extra_legs.finding_candidates_not_in_known_findings): a hook exception raised "
